@@ -26,7 +26,7 @@ ASSUMPTIONS = [
     "log and delegate (no behaviour change)",
 ]
 REQUIRED = {'assignments': 1000, 'deliveries': 1000, 'unchanged_assignments': 100,
-            'every_output_deliveries': 100, 'cblock_assignments': 50, 'filter_rejections': 20,
+            'every_output_deliveries': 100, 'cblock_assignments': 50, 'filter_rejections': 20, 'cleanup_assignments': 20,
             'equal_not_identical_neighbours': 50}
 SHARDS = {'quick': 8, 'thorough': 16}
 TIMEOUT = {'quick': 300, 'thorough': 3000}
@@ -104,6 +104,8 @@ def gen(ctx):
                 'on_every': evlist() if sender in ('src', 'input', 'counter') else [],
                 'form': [rng.choice(FORMS), rng.choice(FORMS)],
                 'initdef': rng.random() < 0.5}
+        if sender == 'src' and rng.random() < 0.4:
+            case['stop_value'] = rng.choice(alphabet)
         yield case
 
 
@@ -133,6 +135,14 @@ def build_and_run(case, ctx):
 
         def init_from_value(self, value):   # so that it can stay uninitialised until an event
             self.set_output(value)
+
+        def stop(self):
+            # an output assignment made during the clean-up (e.g. a safe value): the events
+            # must be produced as for any other assignment
+            if getattr(self, 'x_stop', NOINIT) is not NOINIT:
+                ctx.count('cleanup_assignments')
+                self.set_output(self.x_stop)
+            super().stop()
 
     sender_ref = [None]
     evobjs = {}
@@ -172,7 +182,8 @@ def build_and_run(case, ctx):
         first = pool[case['values'][0]]
         if kind == 'src':
             s = Src('snd', x_init=first if case['initdef'] else NOINIT, on_output=oo,
-                    on_every_output=oe, initdef=edzed.UNDEF)
+                    on_every_output=oe, initdef=edzed.UNDEF,
+                    x_stop=NOINIT if case.get('stop_value') is None else pool[case['stop_value']])
             feeder = s
         elif kind == 'input':
             s = edzed.Input('snd', initdef=first, on_output=oo, on_every_output=oe)
